@@ -181,8 +181,9 @@ PATTERN_FUNCS = ('contains', 'regex', 'normalized', 'startswith', 'fuzzy', 'anyo
 KINDS = ('amount', 'date', 'month', 'year', 'day', 'source')
 
 
-def specificity_ref(r):
-    """(priority, number of pattern-function calls, distinct constraint kinds, total pattern text length)."""
+def specificity_ref(r, field_prims=False):
+    """(priority, number of pattern-function calls, distinct constraint kinds, total pattern text length).
+    field_prims: read `field.amount` / `field.date` / `field.source` as a constraint on that primitive too (it IS the amount), not only as a field constraint."""
     tree = ast.parse(r.match, mode='eval')
     pf, kinds, plen = 0, set(), 0
     for n in ast.walk(tree):
@@ -193,6 +194,8 @@ def specificity_ref(r):
         if isinstance(n, ast.Attribute) and isinstance(n.value, ast.Name):
             if n.value.id.lower() == 'field':
                 kinds.add('field')
+                if field_prims and n.attr.lower() in KINDS:
+                    kinds.add(n.attr.lower())
             elif n.value.id.lower() == 'txn' and n.attr.lower() in KINDS:
                 kinds.add(n.attr.lower())
         if isinstance(n, ast.Constant) and isinstance(n.value, str):
@@ -237,6 +240,14 @@ def ref_match(rf, txn, rows, mode='first_match', transformed=False):
                 return [i for i in cats if kk[i] == max(kk.values())], [i for i in cats if rf.rules[i].subcategory and kk[i] == max(kk[j] for j in cats if rf.rules[j].subcategory)]
             if len({repr(top(b)) for b in (0, 1, 2)}) > 1:
                 raise OutOfDomain('weekday as a constraint kind decides the ranking')
+        # likewise `field.amount` (the amount reached through the field accessor): one kind ("field") or two ("field" and "amount")?
+        if any(re.search(r'\bfield\.(%s)\b' % '|'.join(sorted(KINDS)), rf.rules[i].match, re.I) for i in cats):
+            def top2(fp):
+                kk = {i: specificity_ref(rf.rules[i], field_prims=fp) for i in cats}
+                subs_ = [j for j in cats if rf.rules[j].subcategory]
+                return [i for i in cats if kk[i] == max(kk.values())], [i for i in subs_ if kk[i] == max(kk[j] for j in subs_)]
+            if repr(top2(False)) != repr(top2(True)):
+                raise OutOfDomain('field.<primitive> as a constraint kind decides the ranking')
         best = max(keys.values())
         top = [i for i in cats if keys[i] == best]
         w = top[0]
